@@ -24,6 +24,10 @@ static jmp_buf cut_jmp;
 #endif
 
 struct inputs {
+  /* positions for the speculative-discovery steps: word index (0..S) and live bits of the parser and of a candidate */
+  unsigned p_word, p_live, c_word, c_live, scan_ok, start_word;
+  unsigned u_word[3], u_live[3], u_complete[3], n_unord;
+  unsigned granul;
   /* reorder */
   uint64_t ob_major, ob_minor, hd_major, hd_minor;
   uint32_t ob_crc, hd_crc, ob_blk_sz;
@@ -37,10 +41,19 @@ DECLARE_INPUTS
 static bool fail_expected, fail_seen;
 static unsigned written, slots_back, released;
 
+/* free() is intercepted so that the harness can tell "released" from "kept" records (nothing is really freed) */
+#define NFREED 16
+static void *freed[NFREED]; static unsigned nfreed;
+static void verif_free(void *p) { if (p && nfreed < NFREED) freed[nfreed++] = p; }
+static bool was_freed(void *p) { unsigned i; for (i = 0; i < NFREED; i++) if (i < nfreed && freed[i] == p) return true; return false; }
+#define free(p) verif_free(p)
 #include "expand.c"            /* the real /repo/src/expand.c */
+#undef free
 
 /* ---- globals normally in process.c / main.c ---- */
+#ifndef REAL_HEAP
 bool eof; unsigned work_units, in_slots, out_slots, total_work_units, total_in_slots, total_out_slots; size_t in_granul, out_granul;
+#endif
 unsigned num_worker; size_t max_mem; bool decompress; unsigned bs100k = 9; bool force, keep, verbose, print_cctrs, small, ultra;
 struct filespec ispec, ospec;
 void *xmalloc(size_t n) { void *p = malloc(n); ASSUME(p != 0); return p; }
@@ -57,22 +70,32 @@ void sched_unlock(void) {}
 void source_close(void) {}
 void source_release_buffer(void *b) { (void)b; released++; }
 void sink_write_buffer(void *b, size_t size, size_t weight) { (void)b; (void)size; (void)weight; written++; }
+#ifndef REAL_HEAP
 /* bag with correct head extraction (order inside the queues is irrelevant here; real helpers: heap_ops) */
 void up_heap(void *root, unsigned size) { (void)root; (void)size; }
 void down_heap(void *vroot, unsigned size) { void **root = vroot; void *t = root[0]; root[0] = root[size]; root[size] = t; }
+#endif
 
 /* ---- codec stubs ---- */
 uint32_t crc_table[256];
 void parser_init(struct parser_state *ps, int bs, int sm) { ps->state = 0; ps->bs100k = bs; ps->computed_crc = 0; ps->stream_mode = sm; }
+static int parse_mode;            /* 0: FINISH at end of input (h_parse_finish); 1: OK with a header at a symbolic position */
+static unsigned stub_word, stub_live; static int stub_rv; static unsigned scan_skip_seen;
+static void move_to(struct bitstream *bs, unsigned word, unsigned live)   /* leave the stream `live` bits before word index `word` of its block */
+{
+  const uint32_t *base = bs->block ? (const uint32_t *)bs->block->buffer : bs->data;
+  bs->data = base + word; bs->live = live; bs->buff = 0;
+}
 int parse(struct parser_state *ps, struct header *hd, struct bitstream *bs, unsigned *garbage)
 {
-  (void)ps; (void)hd;
+  (void)ps;
+  if (parse_mode == 1) { move_to(bs, stub_word, stub_live); hd->crc = 0xC0FFEE; hd->bs100k = 9; return OK; }
   /* the parser ran to the end of the available input and reports FINISH */
   bs->data = bs->limit; bs->live = IN.stop_live; bs->buff = 0;
   *garbage = IN.garbage;
   return FINISH;
 }
-int scan(struct bitstream *bs, unsigned skip) { (void)bs; (void)skip; return MORE; }
+int scan(struct bitstream *bs, unsigned skip) { scan_skip_seen = skip; move_to(bs, stub_word, stub_live); return stub_rv; }
 void decoder_init(struct decoder_state *ds) { ds->internal_state = 0; ds->tt = 0; }
 void decoder_free(struct decoder_state *ds) { (void)ds; }
 int retrieve(struct decoder_state *ds, struct bitstream *bs) { (void)ds; (void)bs; return MORE; }
@@ -160,5 +183,134 @@ void h_parse_finish(void)
   PROP(!fail_expected, "input that ends inside its last stream (stream bits taken from the padding) is rejected (C05/C07)");
   PROP(parsing_done && parse_token && work_units == 2 && empty(input_q), "the parser finishes, gives its work unit back and releases the input");
 }
+
+/* ================================================================== positions */
+static struct position pos_of(unsigned word, unsigned live)    /* position of the bit `live` bits before word index `word` (reference formula) */
+{
+  struct position p;
+  uint64_t bit = 32ull * word - live, w = bit / 32, per = in_granul / 4;
+  p.major = w / per; p.minor = ((w % per) << 32) + ((bit % 32) << 27);
+  return p;
+}
+
+/* detach(): the position it reports identifies the absolute bit position (injective, order-preserving) (C09/C10) */
+void h_detach_pos(void)
+{
+  LOAD_INPUTS();
+  static uint32_t words[8];
+  struct in_blk *blk = xmalloc(sizeof *blk);
+  struct bitstream bs;
+  unsigned off = IN.start_word, S = IN.nwords, k = IN.c_word, L = IN.c_live;
+  ASSUME(IN.granul >= 1 && IN.granul <= 4); in_granul = 4 * IN.granul;   /* words per input buffer: 1..4 */
+  ASSUME(S >= 1 && S <= 4 && k <= S && off <= 8 && L <= 63 && 32u * (off + k) >= L);
+  blk->buffer = words; blk->size = S; blk->ref_count = 2; blk->offset = off;
+  tail_offs = off + S + (IN.p_word & 3); head_offs = 0;
+  bs.block = blk; bs.data = words + k; bs.limit = words + S; bs.live = L; bs.buff = 0; bs.eof = false;
+  struct detached_bitstream d = detach(bs);
+  uint64_t bit = 32ull * (off + k) - L, per = in_granul / 4;
+  WITNESS("detached");
+  if (L >= 32) WITNESS("more_than_a_word_buffered");
+  PROP(d.offset == off + k && d.live == L, "detached stream remembers word offset and buffered bits");
+  PROP((d.pos.minor & ((1ull << 27) - 1)) == 0, "position encoding: no stray low bits");
+  PROP((d.pos.major * per + (d.pos.minor >> 32)) * 32 + ((d.pos.minor >> 27) & 31) == bit, "the reported position encodes exactly the absolute bit position of the next unread bit");
+  PROP(pos_eq(d.pos, pos_of(off + k, L)), "reference position formula agrees");
+  PROP(blk->ref_count == 1, "the stream's hold on its input block is dropped");
+}
+
+/* ================================================================== do_scan(): what a candidate may become (C10) */
+void h_scan_candidate(void)
+{
+  LOAD_INPUTS();
+  static uint32_t words[4];
+  struct detached_bitstream *task;
+  unsigned S = 4;
+  num_worker = 2; work_units = 2; in_slots = 8; out_slots = 4; total_out_slots = 8; in_granul = 16; bs100k = 9;
+  init();
+  eof = false;
+  on_input_avail(words, 16);                    /* one input block of 4 words; enqueues its scan task */
+  ASSUME(IN.p_word <= S && IN.p_live <= 31 && 32u * IN.p_word >= IN.p_live);
+  ASSUME(32u * IN.p_word - IN.p_live < 32u * S);     /* the parser has not left this input block (advance() would have released its scan task) */
+  ASSUME(IN.c_word <= S && IN.c_live <= 31 && 32u * IN.c_word >= IN.c_live + 80u);   /* a candidate ends >= 80 bits into the stream */
+  parser_bs = bits_init(0); parser_bs.offset = IN.p_word; parser_bs.live = IN.p_live; parser_bs.pos = pos_of(IN.p_word, IN.p_live);
+  parse_token = IN.scan_ok & 2 ? true : false;
+  stub_word = IN.c_word; stub_live = IN.c_live; stub_rv = (IN.scan_ok & 1) ? OK : MORE;
+  ASSUME(can_scan());
+  nfreed = 0;
+  unsigned units = work_units;
+  do_scan();
+  struct position cpos = pos_of(IN.c_word, IN.c_live);
+  bool beyond = pos_lt(parser_bs.pos, cpos);
+  if (stub_rv != OK) {
+    WITNESS("nothing_found");
+    PROP(work_units == units && empty(unord_q) && empty(retr_q), "a scan without a match creates nothing and gives its work unit back");
+  } else if (!beyond) {
+    WITNESS("candidate_not_ahead_of_parser");
+    PROP(work_units == units && empty(unord_q) && empty(retr_q), "a candidate at or before the parser's position is dropped (C10)");
+  } else {
+    WITNESS("candidate_ahead_of_parser");
+    PROP(work_units == units - 1 && size(unord_q) == 1 && size(retr_q) == 1, "a candidate ahead of the parser becomes exactly one speculative retrieve job");
+    PROP(pos_eq(peek(unord_q)->base, cpos) && !peek(unord_q)->complete, "it is recorded, unconfirmed, under the bit position where it was found");
+    PROP(pos_eq(peek(retr_q)->base, cpos) && peek(retr_q)->unord_link == peek(unord_q) && peek(retr_q)->curr_pos.offset == IN.c_word && peek(retr_q)->curr_pos.live == IN.c_live,
+         "its retrieve job starts at that bit position and is linked to the record");
+  }
+}
+
+/* ================================================================== do_parse(): confirming or discarding candidates (C10) */
+#ifdef REAL_HEAP
+void h_parse_match(void)
+{
+  LOAD_INPUTS();
+  static uint32_t words[4];
+  struct unord_blk *ub[3];
+  unsigned S = 4, i, n = IN.n_unord;
+  num_worker = 4; work_units = 4; in_slots = 8; out_slots = 4; total_out_slots = 8; in_granul = 16; bs100k = 9;
+  init();
+  eof = false;
+  on_input_avail(words, 16);
+#ifndef NU
+#define NU 3
+#endif
+  ASSUME(n <= NU);
+  ASSUME(IN.c_word <= S && IN.c_live <= 31 && 32u * IN.c_word >= IN.c_live + 80u);     /* where the parser ends up */
+  struct position ppos = pos_of(IN.c_word, IN.c_live);
+  for (i = 0; i < 3; i++) if (i < n) {
+    ASSUME(IN.u_word[i] <= S && IN.u_live[i] <= 31 && 32u * IN.u_word[i] >= IN.u_live[i] + 80u);
+    ub[i] = xmalloc(sizeof *ub[i]);
+    ub[i]->base = pos_of(IN.u_word[i], IN.u_live[i]);
+    ub[i]->complete = IN.u_complete[i] & 1; ub[i]->legitimate = false;
+    ub[i]->end_pos = bits_init(S); ub[i]->end_pos.pos = pos_of(S, 0);
+    { unsigned j; for (j = 0; j < i; j++) ASSUME(!pos_eq(ub[j]->base, ub[i]->base)); }     /* one record per bit position */
+    enqueue(unord_q, ub[i]);
+  }
+  parser_bs = bits_init(0);
+  parse_mode = 1; stub_word = IN.c_word; stub_live = IN.c_live;
+  ASSUME(can_parse());
+  nfreed = 0;
+  unsigned units = work_units, matched = 3;
+  for (i = 0; i < 3; i++) if (i < n && pos_eq(ub[i]->base, ppos)) matched = i;
+  do_parse();
+  PROP(size(order_q) == 1 && pos_eq(dq_get(order_q, 0).base, ppos) && dq_get(order_q, 0).hdr.crc == 0xC0FFEE, "the block header is queued for output under the parser's bit position");
+  unsigned left = 0;
+  for (i = 0; i < 3; i++) if (i < n) {
+    if (pos_lt(ub[i]->base, ppos)) {
+      WITNESS("stale_candidate_discarded");
+      if (IN.u_complete[i] & 1) PROP(was_freed(ub[i]), "a finished candidate the parser passed over is released (C10)");
+      else PROP(!was_freed(ub[i]) && ub[i]->complete && !ub[i]->legitimate, "an unfinished candidate the parser passed over is marked not legitimate (C10)");
+    } else if (i != matched) { left++; PROP(!was_freed(ub[i]) && (ub[i]->complete != 0) == ((IN.u_complete[i] & 1) != 0), "candidates ahead of the parser are left alone"); }
+  }
+  if (matched < 3) {
+    WITNESS("candidate_confirmed");
+    PROP(empty(retr_q) && work_units == units, "a block already found by the scanner is not retrieved twice; the parser's work unit is given back");
+    if (IN.u_complete[matched] & 1) PROP(was_freed(ub[matched]) && parse_token, "a finished confirmed block hands the parser role on at once");
+    else PROP(!was_freed(ub[matched]) && ub[matched]->complete && ub[matched]->legitimate && !parse_token, "an unfinished confirmed block is marked legitimate; its retriever will hand the parser role on");
+    PROP(parser_bs.offset == S, "the parser continues after the confirmed block");
+  } else {
+    WITNESS("block_only_the_parser_found");
+    PROP(size(retr_q) == 1 && pos_eq(peek(retr_q)->base, ppos) && peek(retr_q)->unord_link == 0 && work_units == units - 1 && !parse_token,
+         "a block nobody found yet gets a retrieve job at the parser's position, owned by the sequential chain");
+  }
+  PROP(size(unord_q) == left, "exactly the candidates ahead of the parser remain on record");
+}
+#endif
 
 HARNESS_MAIN(REPLAY_ENTRY)
